@@ -17,8 +17,11 @@ var props = map[string]propCfg{
 	"C18": {engine: "codec", gen: true, level: "exploration", qShards: 8, tShards: 16, assume: codecAssume},
 	"C20": {engine: "codec", gen: true, level: "exploration", qShards: 8, tShards: 16, assume: codecAssume},
 	"C04": {engine: "bus", gen: true, race: true, level: "exploration", qShards: 12, tShards: 16, assume: busAssume},
+	"C06": {engine: "bus", gen: true, race: true, level: "exploration", qShards: 12, tShards: 16, assume: busAssume},
 	"C10": {engine: "bus", gen: true, race: true, level: "exploration", qShards: 6, tShards: 16, qTimeout: 8 * time.Minute, assume: busAssume},
 	"C11": {engine: "bus", gen: true, race: true, level: "fault_enumeration", qShards: 12, tShards: 16, assume: busAssume},
+	"C13": {engine: "bus", gen: true, race: true, level: "exploration", qShards: 12, tShards: 16, assume: busAssume},
+	"C16": {engine: "bus", gen: true, race: true, level: "exploration", qShards: 12, tShards: 16, assume: busAssume},
 	"C17": {engine: "bus", gen: true, race: true, raceViol: true, racePkg: "qiloop/bus/net", level: "exploration", qShards: 12, tShards: 16, assume: busAssume},
 }
 
